@@ -18,13 +18,17 @@ pub fn spec() -> Spec {
         id: "C14",
         rule: "subject meshes (box, sphere, torus, height field, 12..2000 faces) and reference meshes (the same surface offset / rotated slightly, partial overlaps); starting selections none / all / random index sets in random order; \
                chains of 1-6 steps over {Add, Remove, Keep} x {facing(n, angle), near_mesh(ref, all|any, dist, planar?, angle?)} with every combination of the optional tolerances; each chain is run several times and with permuted starting indices. \
+               Meshes built from selections: subject meshes with and without vertices that no face uses (appended, prepended), selections none-empty: everything (Selection::All, identity and permuted index lists), random subsets, lists with repeated indices, lists as long as the face count. \
                Non-trivial = a chain whose final selection is neither empty nor everything; distinct = hash(mesh fingerprint, chain).",
         assumptions: &[
             "per-vertex projection onto the reference mesh uses the public project_with_max_dist (declared exception, DESIGN 2.4); everything else about the predicate is computed by the harness",
             "faces with any quantity within a guard band of its threshold (1e-9 relative on distances, 1e-7 rad on angles) are 'don't care'",
             "create_mesh / create_from_indices are exercised on non-empty selections (an empty triangle mesh is not representable)",
         ],
-        streams: vec![Stream { name: "chains", quick: 40_000, thorough: 1_200_000, run: run }],
+        streams: vec![
+            Stream { name: "chains", quick: 40_000, thorough: 1_200_000, run: run },
+            Stream { name: "built-mesh", quick: 20_000, thorough: 600_000, run: run_built },
+        ],
         required: vec![
             ("TriangleFilter::facing", 10_000),
             ("TriangleFilter::near_mesh", 10_000),
@@ -353,4 +357,109 @@ fn run(c: &mut Ctx) {
     if !sel.is_empty() && sel.len() < nf {
         c.distinct(&(nf, raw.v[0].x.to_bits(), steps, start_kind, sel.len()));
     }
+}
+
+
+// ---------------------------------------------------------------------------------------------
+// meshes built from a selection, on meshes that also carry vertices no face uses
+
+fn run_built(c: &mut Ctx) {
+    let mut raw = gen::random_mesh(&mut c.rng, if c.thorough { 600 } else { 200 }, true);
+    let nf = raw.f.len();
+    // loose vertices: none / appended / prepended
+    let loose = c.rng.int(0, 2);
+    let k = if loose == 0 { 0 } else { c.rng.int(1, 5) };
+    let ext = raw.extent();
+    let extra: Vec<Point3> = (0..k).map(|_| Point3::new(c.rng.range(-ext, ext), c.rng.range(-ext, ext), c.rng.range(-ext, ext))).collect();
+    match loose {
+        1 => raw.v.extend(extra.iter().cloned()),
+        2 => {
+            let mut v = extra.clone();
+            v.extend(raw.v.iter().cloned());
+            raw.v = v;
+            for t in &mut raw.f {
+                for j in 0..3 {
+                    t[j] += k as u32;
+                }
+            }
+        }
+        _ => {}
+    }
+    let mesh = raw.to_mesh(false);
+    let class = ["all-vertices-used", "unused-vertices-appended", "unused-vertices-prepended"][loose];
+    // index list
+    let kind = c.rng.int(0, 5);
+    let order: Vec<usize> = match kind {
+        0 => (0..nf).collect(),
+        1 => c.rng.perm(nf),
+        2 => (0..nf).map(|_| c.rng.int(0, nf - 1)).collect(), // as long as the face count, with repeats
+        3 => {
+            let mut v: Vec<usize> = (0..nf).filter(|_| c.rng.chance(0.5)).collect();
+            if v.is_empty() {
+                v.push(0);
+            }
+            c.rng.shuffle(&mut v);
+            v
+        }
+        4 => vec![c.rng.int(0, nf - 1)],
+        _ => {
+            let n = c.rng.int(1, 2 * nf);
+            (0..n).map(|_| c.rng.int(0, nf - 1)).collect()
+        }
+    };
+    let kind_name = ["identity", "permutation", "face-count-long-with-repeats", "subset", "single", "random-with-repeats"][kind];
+    c.family(&format!("built-mesh/{class}/{kind_name}"));
+    c.set_case(json!({"mesh": if nf <= 200 { raw.json() } else { json!({"kind": raw.name, "faces": nf}) }, "indices": order}));
+    let judge = |c: &mut Ctx, api: &str, nv: &[Point3], nfaces: &[[u32; 3]], ordered: bool| {
+        let key = |p: [Point3; 3]| -> [[u64; 3]; 3] { [[p[0].x.to_bits(), p[0].y.to_bits(), p[0].z.to_bits()], [p[1].x.to_bits(), p[1].y.to_bits(), p[1].z.to_bits()], [p[2].x.to_bits(), p[2].y.to_bits(), p[2].z.to_bits()]] };
+        let in_range = nfaces.iter().flatten().all(|i| (*i as usize) < nv.len());
+        if !c.check(api, "face indices are in range", class, in_range, || "index out of range".into()) {
+            return;
+        }
+        let mut got: Vec<[[u64; 3]; 3]> = nfaces.iter().map(|q| key([nv[q[0] as usize], nv[q[1] as usize], nv[q[2] as usize]])).collect();
+        let mut want: Vec<[[u64; 3]; 3]> = order
+            .iter()
+            .map(|f| {
+                let t = raw.f[*f];
+                key([raw.v[t[0] as usize], raw.v[t[1] as usize], raw.v[t[2] as usize]])
+            })
+            .collect();
+        if !ordered {
+            got.sort();
+            want.sort();
+        }
+        c.check(api, "exactly the selected triangles with identical coordinates and winding", class, got == want, || format!("{} faces built, {} selected", got.len(), want.len()));
+        let used: BTreeSet<u32> = order.iter().flat_map(|f| raw.f[*f]).collect();
+        let referenced: BTreeSet<u32> = nfaces.iter().flatten().cloned().collect();
+        c.check(api, "only the vertices the selected faces use", class, nv.len() == used.len() && referenced.len() == nv.len(), || {
+            format!("{} vertices in the new mesh, {} of them referenced, {} used by the selected faces ({kind_name})", nv.len(), referenced.len(), used.len())
+        });
+    };
+    let r = guard(|| {
+        let m = mesh.create_from_indices(&order);
+        (m.vertices().to_vec(), m.faces().to_vec())
+    });
+    c.eval();
+    match r {
+        Err(p) => {
+            c.check("Mesh::create_from_indices", "no-panic", class, false, || format!("{} {}", p.sig(), p.msg));
+        }
+        Ok((nv, nfaces)) => judge(c, "Mesh::create_from_indices", &nv, &nfaces, true),
+    }
+    // the same through the filter (a selection is a set: repeats collapse)
+    if kind != 2 && kind != 5 {
+        let sel = if kind == 0 && c.rng.bool() { Selection::All } else { Selection::Indices(order.clone()) };
+        let r = guard(|| {
+            let m = mesh.face_select(sel).create_mesh();
+            (m.vertices().to_vec(), m.faces().to_vec())
+        });
+        c.eval();
+        match r {
+            Err(p) => {
+                c.check("TriangleFilter::create_mesh", "no-panic", class, false, || format!("{} {}", p.sig(), p.msg));
+            }
+            Ok((nv, nfaces)) => judge(c, "TriangleFilter::create_mesh", &nv, &nfaces, false),
+        }
+    }
+    c.distinct(&(nf, raw.v[0].x.to_bits(), kind, loose, order.len()));
 }
